@@ -210,6 +210,13 @@ func (f *Frame) copyOp(x *ssa.Call, c *ssa.CallCommon, at string, st *State) *Va
 		j, d, n, inner, srcIn, s), "copy: copied elements")
 	vc.assume(at, fmt.Sprintf("(forall ((%s Int)) (! (=> (or (< %s (s_off %s)) (>= %s (+ (s_off %s) %s))) (= (select %s %s) (select %s %s))) :pattern ((select %s %s))))",
 		j, j, d, j, d, n, inner, j, oldD, j, inner, j), "copy: rest unchanged")
+	if !isByteSlice(c.Args[0].Type()) {
+		// the same in the indexed form of specifications: dst[k] == src[k] for k < n
+		vc.ctr++
+		q := fmt.Sprintf("q!%d", vc.ctr)
+		vc.assume(at, fmt.Sprintf("(forall ((%[1]s Int)) (! (=> (and (<= 0 %[1]s) (< %[1]s %[2]s)) (= (select %[3]s (ix (s_off %[4]s) %[1]s)) (select %[5]s (ix (s_off %[6]s) %[1]s)))) :pattern ((select %[3]s (ix (s_off %[4]s) %[1]s)))))",
+			q, n, inner, d, srcIn, s), "copy: copied elements (indexed form)")
+	}
 	if isByteSlice(c.Args[0].Type()) {
 		vc.assume(at, implies(eq(n, "(s_len "+s+")"), eq(fmt.Sprintf("(bview %s (s_off %s) %s)", inner, d, n), fmt.Sprintf("(bview %s (s_off %s) %s)", srcIn, s, n))), "copy: byte view")
 	}
